@@ -175,6 +175,10 @@ def dy(rng, lo, hi, den=64):
     return float(rng.integers(int(lo * den), int(hi * den) + 1)) / den
 
 
+SPECIAL_F = [0.0, 0.0, 0.0, -0.0, 2.0 ** -30, 1e-9, 1e6, 3e8, None]
+SPECIAL_X = [0.0, 0.0, -0.0, 2.0 ** -40, 1e-12, 0.999, 1e3]
+
+
 def gen_tables(ctx, rng, max_orders, degenerate):
     if degenerate:
         kind = str(rng.choice(["1x1", "1xn", "nx1", "allnan", "lab1_on_nan", "nostable", "allstable"]))
@@ -228,6 +232,24 @@ def gen_tables(ctx, rng, max_orders, degenerate):
         Lab[:] = 1
     elif rng.random() < 0.7:
         Lab = np.where(mask, Lab, 0)  # SC_apply leaves 0 on rejected poles; otherwise labels also sit on nan cells
+    # special values at retained poles: exact 0.0 Hz (rigid-body / DC pole), -0.0, tiny / huge magnitudes, repeated values, 0.0 damping.
+    # A retained pole is a retained pole whatever its value: sentinel idioms (x * mask, "== 0 -> nan") must not lose it.
+    fin = np.argwhere(np.isfinite(Fn))
+    if len(fin) and rng.random() < 0.5:
+        nsp = int(rng.integers(1, min(6, len(fin)) + 1))
+        for idx in rng.choice(len(fin), size=nsp, replace=False):
+            i, o = int(fin[idx][0]), int(fin[idx][1])
+            v = SPECIAL_F[int(rng.integers(len(SPECIAL_F)))]
+            if v is None:  # repeat the value of another retained pole
+                j = fin[int(rng.integers(len(fin)))]
+                v = float(Fn[int(j[0]), int(j[1])])
+            Fn[i, o] = v
+            ctx.hist("special_frequency", repr(v) if v in SPECIAL_F else "repeated")
+            if Xi[i, o] == Xi[i, o] and rng.random() < 0.6:
+                Xi[i, o] = SPECIAL_X[int(rng.integers(len(SPECIAL_X)))]
+                ctx.hist("special_damping", repr(float(Xi[i, o])))
+            if v == 0.0:
+                ctx.hist("zero_pole_label", int(Lab[i, o]))
     return kind, Fn, Xi, Lab
 
 
@@ -319,7 +341,17 @@ def c20_big_file(Fn, Xi, Lab, stab_expr, hide, picks_exprs):
     rows, cols = Fn.shape
     hb = "true" if hide else "false"
     nfin = int(np.isfinite(Fn).sum())
-    nch = max(1, -(-nfin // CHUNK))
+    mx = 1
+    for f, d in zip(Fn.ravel().tolist(), Xi.ravel().tolist()):
+        if f == f:
+            a, b = Fraction(f).as_integer_ratio()
+            m = len(str(a)) + len(str(b)) + 8
+            if d == d:
+                a, b = Fraction(d).as_integer_ratio()
+                m += len(str(a)) + len(str(b)) + 2
+            mx = max(mx, m)
+    chunk = max(5, min(CHUNK, 9000 // mx))   # every printed string stays well below the read-back limit
+    nch = max(1, -(-nfin // chunk))
     src = ("From Coq Require Import List ZArith QArith Qcanon String Bool.\nFrom PyOMA.Base Require Import Carrier Show.\n" + HEADER +
            "\nImport ListNotations.\nOpen Scope string_scope.\nSet Printing Width 1000000000.\nSet Printing Depth 1000000000.\n")
     src += "Definition Fn : list (list (option Q)) := %s.\nDefinition Xi : list (list (option Q)) := %s.\nDefinition Lab : list (list Z) := %s.\n" % (
@@ -331,7 +363,7 @@ def c20_big_file(Fn, Xi, Lab, stab_expr, hide, picks_exprs):
         src += "Eval vm_compute in (showN (List.length (%s))).\n" % lst
         n += 1
         for j in range(nch):
-            src += "Eval vm_compute in (%s (firstn %d (skipn %d (%s)))).\n" % (shw, CHUNK, CHUNK * j, lst)
+            src += "Eval vm_compute in (%s (firstn %d (skipn %d (%s)))).\n" % (shw, chunk, chunk * j, lst)
             n += 1
     for pe in picks_exprs:
         src += "Eval vm_compute in (%s).\n" % pe
@@ -406,6 +438,8 @@ def table_case(ctx, case, exprs, meta, big):
     ctx.hist("table_kind", case.get("kind"))
     ctx.hist("hide", hide)
     ctx.hist("step", step)
+    ctx.hist("label_dtype", str(Lab.dtype))
+    ctx.hist("exact_zero_retained_pole", bool(np.any(Fn == 0.0)))
     res = {}
     # ---- stab_plot
     try:
@@ -448,6 +482,15 @@ def table_case(ctx, case, exprs, meta, big):
         ctx.fail("oracle", "cluster_plot raised %s: %s" % (type(e).__name__, str(e)[:200]), case, key="C20:cluster_plot:raised")
     finally:
         plt.close("all")
+    # ---- the two diagrams draw the same poles (damping finite exactly where frequency is)
+    if "stab" in res and "cluster" in res and np.array_equal(np.isnan(Fn), np.isnan(Xi)):
+        for k, fam in ((0, "stable"), (1, "unstable")):
+            a = sorted(p[0] for p in res["stab"][k])
+            b = sorted(p[0] for p in res["cluster"][k])
+            if a != b:
+                miss = [float(v) for v in (set(a) ^ set(b))][:4] or "multiplicities differ"
+                ctx.fail("oracle", "the stabilisation and the cluster diagram do not draw the same %s poles: %d vs %d markers, differing at frequencies %s"
+                         % (fam, len(a), len(b), miss), case, key="C20:diagrams:same-poles-%s" % fam)
     # ---- extraction accepts the marker's order value (function level, step 1: what the classes draw)
     picks = []
     if step == 1 and stab_o:
@@ -779,7 +822,7 @@ def run(ctx):
         kind, Fn, Xi, Lab = gen_tables(ctx, rng, max_orders, degenerate=rng.random() < 0.15)
         cov = gen_cov(rng, Fn) if rng.random() < 0.45 else None
         nst = max(1, int(((Lab == 1) & np.isfinite(Fn)).sum()))
-        case = dict(type="tables", kind=kind, Fn=jl(Fn), Xi=jl(Xi), Lab=Lab.tolist(), lab_float=bool(rng.random() < 0.2),
+        case = dict(type="tables", kind=kind, Fn=jl(Fn), Xi=jl(Xi), Lab=Lab.tolist(), lab_float=bool(rng.random() < 0.4),
                     step=int(rng.choice([1, 1, 1, 2, 3, 5])), hide=bool(rng.random() < 0.5), freqlim=gen_freqlim(rng),
                     Fn_cov=None if cov is None else jl(cov), ordmin=int(rng.integers(0, 3)), own_axes=bool(rng.random() < 0.1),
                     pick_idx=[int(v) for v in rng.integers(0, nst, size=2)], rtol=float(rng.choice([0.05, 0.01, 0.0])))
